@@ -46,6 +46,11 @@ type UploadCase struct {
 	DstLink int `json:"dstLink,omitempty"`
 	// SelfAt > 0: the control file lists ITSELF among its files, as entry number SelfAt-1
 	SelfAt int `json:"selfAt,omitempty"`
+	// Layout: "" = Files and Checksums-Sha256 list the same names; "sha256-only" = no Files field at
+	// all; "split" = Files lists the plain names only, Checksums-Sha256 all of them (the
+	// adversarial ones included). Whatever the library takes "referenced" to mean then, nothing
+	// outside may be touched.
+	Layout string `json:"layout,omitempty"`
 }
 
 // otherFileSystemDir returns a fresh directory on a file system different from the one of ref, or "".
@@ -128,6 +133,9 @@ func genUploadCase(t *rapid.T) UploadCase {
 			c.DstLink++
 		}
 	}
+	if adversarial && rapid.IntRange(0, 2).Draw(t, "layoutk") == 0 {
+		c.Layout = rapid.SampledFrom([]string{"sha256-only", "split"}).Draw(t, "layout")
+	}
 	c.Stale = rapid.IntRange(0, 3).Draw(t, "stale") == 0
 	c.CrossDev = rapid.IntRange(0, 4).Draw(t, "crossDev") == 0
 	if adversarial && rapid.IntRange(0, 2).Draw(t, "fnf") == 0 {
@@ -159,8 +167,14 @@ func (c UploadCase) controlText(root string) string {
 	for _, f := range c.Files {
 		sb.WriteString(fmt.Sprintf(" %064x %d %s\n", f.Seed, f.Size, f.Name))
 	}
+	if c.Layout == "sha256-only" {
+		return sb.String()
+	}
 	sb.WriteString("Files:\n")
 	for _, f := range c.Files {
+		if c.Layout == "split" && !plainName(f.Name) {
+			continue
+		}
 		if c.Handle == "dsc" {
 			sb.WriteString(fmt.Sprintf(" %032x %d %s\n", f.Seed, f.Size, f.Name))
 		} else {
@@ -230,7 +244,7 @@ func isRegular(p string) bool {
 }
 
 func checkUploadCase(c UploadCase, r *Recorder) error {
-	allPlain := c.FilenameF == ""
+	allPlain := c.FilenameF == "" && c.Layout == ""
 	for _, f := range c.Files {
 		if !plainName(f.Name) {
 			allPlain = false
@@ -358,8 +372,8 @@ func checkUploadCase(c UploadCase, r *Recorder) error {
 		stepName := c.ctlName()
 		if fault != "none" && c.FaultStep < len(c.Files) {
 			stepName = filepath.Base(c.Files[c.FaultStep].Name)
-			if !plainName(c.Files[c.FaultStep].Name) {
-				fault = "none" // faults are planted on plain names only
+			if !plainName(c.Files[c.FaultStep].Name) || c.Layout == "sha256-only" {
+				fault = "none" // faults are planted on plain names only, and on files the library has reason to touch
 			}
 		}
 		switch fault {
@@ -481,7 +495,7 @@ func checkUploadCase(c UploadCase, r *Recorder) error {
 				return errf("after %s the control file in the destination is missing or differs (%v)", op.Kind, err)
 			}
 			for _, f := range c.Files {
-				if !plainName(f.Name) || f.Name == c.ctlName() {
+				if !plainName(f.Name) || f.Name == c.ctlName() || c.Layout == "sha256-only" {
 					continue
 				}
 				b, err := os.ReadFile(filepath.Join(dstDir, f.Name))
@@ -505,7 +519,7 @@ func checkUploadCase(c UploadCase, r *Recorder) error {
 				return errf("after remove the control file still exists")
 			}
 			for _, f := range c.Files {
-				if !plainName(f.Name) || f.Name == c.ctlName() {
+				if !plainName(f.Name) || f.Name == c.ctlName() || c.Layout == "sha256-only" {
 					continue
 				}
 				if _, serr := os.Stat(filepath.Join(locDir, f.Name)); serr == nil {
@@ -528,7 +542,7 @@ func upNames(fs []UpFile) []string {
 
 var specC20 = Register(&Spec[UploadCase]{
 	Prop: "C20", Name: "upload",
-	Rule: "histories of 1..3 operations (Copy/Move into d1|d2, Remove) on one .dsc or .changes handle over a fresh scratch tree root/{src,src/sub,d1,d2,outside}; 0..5 referenced files (sizes 0, 1, 7, 300, 32767..32769, 100000); a quarter of the uploads list adversarial names ('../outside/victim', '../d1/planted', 'sub/x', absolute, '..', '.', 'sub/../../outside/victim') and/or carry a literal 'Filename:' field pointing elsewhere; in a quarter of the cases both destinations already hold same-named files of the same length with other bytes (leftovers of an earlier upload); in a fifth of the cases d2 is on another file system (/dev/shm, when there is one), where a Move may fail as a whole but must not half-succeed; in a sixth of the cases the destination of the last operation holds a planted symbolic link to root/outside/victim under the name of a referenced file or of the control file; in an eighth the control file lists itself (refusing is fine, but then nothing may have moved and the control file is not in the destination); an operation whose destination is the directory the upload already lives in (also spelled d1/../src/.) must leave that directory bit-identical whatever it returns; the last operation optionally runs with ONE planted fault at step i in {file 0..n-1, control file}: source deleted, source replaced by a non-empty directory, a non-empty directory squatting on the destination name, destination directory missing or a regular file. Oracle: success (plain names, no fault) => all files and the control file byte-identical in the destination (Move: gone from source; Remove: gone), handle.Filename == dest/base; fault => an error, no regular control file in the destination, for Move/Remove the control file intact at its source; always => root/outside bit-identical, no destination file carries outside content, d1/planted untouched when d1 is not involved. Non-trivial: >= 2 files with a fault at step >= 1, or non-plain names; distinct by case.",
+	Rule: "histories of 1..3 operations (Copy/Move into d1|d2, Remove) on one .dsc or .changes handle over a fresh scratch tree root/{src,src/sub,d1,d2,outside}; 0..5 referenced files (sizes 0, 1, 7, 300, 32767..32769, 100000); a quarter of the uploads list adversarial names ('../outside/victim', '../d1/planted', 'sub/x', absolute, '..', '.', 'sub/../../outside/victim') and/or carry a literal 'Filename:' field pointing elsewhere, and a third of those have no Files field at all (Checksums-Sha256 only) or list the adversarial names in Checksums-Sha256 only; in a quarter of the cases both destinations already hold same-named files of the same length with other bytes (leftovers of an earlier upload); in a fifth of the cases d2 is on another file system (/dev/shm, when there is one), where a Move may fail as a whole but must not half-succeed; in a sixth of the cases the destination of the last operation holds a planted symbolic link to root/outside/victim under the name of a referenced file or of the control file; in an eighth the control file lists itself (refusing is fine, but then nothing may have moved and the control file is not in the destination); an operation whose destination is the directory the upload already lives in (also spelled d1/../src/.) must leave that directory bit-identical whatever it returns; the last operation optionally runs with ONE planted fault at step i in {file 0..n-1, control file}: source deleted, source replaced by a non-empty directory, a non-empty directory squatting on the destination name, destination directory missing or a regular file. Oracle: success (plain names, no fault) => all files and the control file byte-identical in the destination (Move: gone from source; Remove: gone), handle.Filename == dest/base; fault => an error, no regular control file in the destination, for Move/Remove the control file intact at its source; always => root/outside bit-identical, no destination file carries outside content, d1/planted untouched when d1 is not involved. Non-trivial: >= 2 files with a fault at step >= 1, or non-plain names; distinct by case.",
 	Check: checkUploadCase,
 })
 
